@@ -9,9 +9,63 @@ package semantic
 // semantic does not import package grammar and cannot even name its types.
 //@ functype ClauseHook preserves package github.com/google/badwolf/bql/grammar
 //@ functype ElementHook preserves package github.com/google/badwolf/bql/grammar
+// Every hook is handed a statement and a well-formed consumed element (a symbol, or a token that is there).
+//@ spec macro wfCE(ce ConsumedElement) Bool = ce.isSymbol || ce.token != nil
+//@ functype ElementHook requires $0 != nil && wfCE($1)
+//@ functype ClauseHook requires $0 != nil
 
 //@ props C18 C08
 //@ func NewConsumedSymbol
 //@   pure
+//@   ensures result.isSymbol && result.symbol == s
 //@ func NewConsumedToken
 //@   pure
+//@   ensures !result.isSymbol && result.token == tkn
+
+// ---- LIMIT and ORDER BY as the statement collects them (C12) -------------------------------
+// limitCollection: the hook of the LIMIT clause. Only a non-negative int64 literal sets the limit;
+// everything else is rejected with an error and leaves the statement alone.
+//@ props C12 C08
+//@ func limitCollection$1
+//@   opt terminates
+//@   requires st != nil
+//@   modifies st.limitSet, st.limit
+//@   ensures[skips-keyword] ce.isSymbol || (ce.token != nil && ce.token.Type == lexer.ItemLimit) ==> result1 == nil && st.limit == old(st.limit) && st.limitSet == old(st.limitSet)
+//@   ensures[error-leaves-statement] result1 != nil ==> st.limit == old(st.limit) && st.limitSet == old(st.limitSet)
+//@   ensures[only-literals] !ce.isSymbol && ce.token != nil && ce.token.Type != lexer.ItemLimit && ce.token.Type != lexer.ItemLiteral ==> result1 != nil
+//@   ensures[limit-is-not-negative] result1 == nil && !ce.isSymbol && ce.token.Type != lexer.ItemLimit ==> st.limitSet && st.limit >= 0
+//@   ensures[limit-stays-not-negative] old(st.limitSet ==> st.limit >= 0) ==> (st.limitSet ==> st.limit >= 0)
+
+// orderByBindings: every binding token appends one key (ascending until told otherwise); ASC/DESC
+// set the direction of the last key. The grammar sends ASC/DESC only right after a binding
+// (ORDER_BY_DIRECTION follows ItemBinding in both rules that install this hook); as a precondition
+// of the hook that is an assumption about the caller's history, not something the parser's call site
+// can establish.
+//@ func orderByBindings$1
+//@   requires st != nil
+//@   requires[direction-follows-a-key] !ce.isSymbol && (ce.token.Type == lexer.ItemAsc || ce.token.Type == lexer.ItemDesc) ==> len(st.orderBy) > 0
+//@   modifies st.orderBy
+//@   ensures[no-error] result1 == nil
+//@   ensures[symbol-ignored] ce.isSymbol ==> st.orderBy == old(st.orderBy)
+//@   ensures[binding-appended] !ce.isSymbol && ce.token.Type == lexer.ItemBinding ==> len(st.orderBy) == old(len(st.orderBy)) + 1 && st.orderBy[old(len(st.orderBy))].Binding == ce.token.Text && !st.orderBy[old(len(st.orderBy))].Desc && (forall j int :: {st.orderBy[j]} 0 <= j && j < old(len(st.orderBy)) ==> st.orderBy[j] == old(st.orderBy[j]))
+//@   ensures[direction-set] !ce.isSymbol && (ce.token.Type == lexer.ItemAsc || ce.token.Type == lexer.ItemDesc) ==> len(st.orderBy) == old(len(st.orderBy)) && st.orderBy[len(st.orderBy) - 1].Desc == (ce.token.Type == lexer.ItemDesc) && st.orderBy[len(st.orderBy) - 1].Binding == old(st.orderBy[len(st.orderBy) - 1].Binding) && (forall j int :: {st.orderBy[j]} 0 <= j && j < len(st.orderBy) - 1 ==> st.orderBy[j] == old(st.orderBy[j]))
+
+//@ func (s *Statement) OutputBindings
+//@   trusted reads the statement and returns a list of binding names; modifies nothing
+//@   pure
+
+// orderByBindingsChecker: the ORDER BY keys must be output bindings and must not contradict each other.
+// The key list a query asked for is to be kept: in particular the first key stays the first key.
+//@ spec macro noDupKeys(c table.SortConfig) Bool = forall i int, j int :: {c[i], c[j]} 0 <= i && i < j && j < len(c) ==> c[i].Binding != c[j].Binding
+//@ func orderByBindingsChecker$1
+//@   opt terminates
+//@   requires s != nil
+//@   modifies s.orderBy
+//@   ensures[error-leaves-keys@C12] result1 != nil ==> s.orderBy == old(s.orderBy)
+//@   ensures[distinct-keys-unchanged@C12] result1 == nil && old(noDupKeys(s.orderBy)) ==> s.orderBy == old(s.orderBy)
+//@   ensures[first-key-kept@C12] result1 == nil && old(len(s.orderBy)) > 0 ==> len(s.orderBy) > 0 && s.orderBy[0] == old(s.orderBy[0])
+//@   loop 0 invariant outs != nil && fresh(outs) && s.orderBy == old(s.orderBy)
+//@   loop 1 invariant[keys] s.orderBy == old(s.orderBy) && seen != nil && fresh(seen) && outs != nil && 0 <= $i && $i <= len(s.orderBy)
+//@   loop 1 invariant[seen] forall k string :: {has(seen, k)} has(seen, k) ==> exists j int :: {s.orderBy[j]} 0 <= j && j < $i && s.orderBy[j].Binding == k
+//@   loop 1 invariant[dups] dups ==> exists i int, j int :: {s.orderBy[i], s.orderBy[j]} 0 <= i && i < j && j < $i && s.orderBy[i].Binding == s.orderBy[j].Binding
+//@   loop 2 invariant seen != nil && fresh(seen) && dups && len(s.orderBy) >= 0
